@@ -68,6 +68,7 @@ type c16client struct {
 	closedAt uint64 // stamp at which the client closed its side (0 = open)
 	readerH  *sim.Handle
 	deafUntil time.Duration // the client does not read from its socket until then (no pongs either)
+	connectedAt time.Duration
 	srv      *Connection
 	refused  bool
 }
@@ -147,6 +148,7 @@ func (w *c16world) connect(id int) *c16client {
 		return c
 	}
 	c.ws = ws
+	c.connectedAt = s.Now()
 	w.logf("client %d connected", id)
 	c.readerH = s.Spawn(fmt.Sprintf("reader#%d", id), func() {
 		for {
@@ -220,13 +222,29 @@ func c16Run(s *sim.Sim, p *sim.Params) {
 	cfg.MessageQueueStrategy = []QueueStrategy{QueueStrategyDropOldest, QueueStrategyDropNewest, QueueStrategyBlock}[s.Choose(sim.SWork, 3)]
 	cfg.EnableHeartbeat = s.Choose(sim.SWork, 2) == 1
 	cfg.HeartbeatInterval = time.Second
-	cfg.PongWaitTimeout = 3 * time.Second
-	cfg.HeartbeatTimeout = 4 * time.Second
+	// (either the read deadline or the missed-pong count notices a silent peer first)
+	cfg.PongWaitTimeout = []time.Duration{3 * time.Second, 10 * time.Second}[s.Choose(sim.SWork, 2)]
+	cfg.HeartbeatTimeout = cfg.PongWaitTimeout + time.Second
 	cfg.MaxMissedPongs = 2
 	cfg.WriteWait = 500 * time.Millisecond
 	cfg.EnableReconnection = s.Choose(sim.SWork, 2) == 1
 	cfg.ReconnectionTimeout = 2 * time.Second
 	cfg.MaxReconnectionTime = 5 * time.Second
+	// "silent peer" runs: heartbeats on, the blocking queue strategy with one or two slots, the
+	// missed-pong count noticing a silent peer before the read deadline does, and the first client
+	// going deaf while it keeps asking for replies on the heartbeat's beat
+	silentPeer := s.Choose(sim.SWork, 12) == 0
+	if silentPeer {
+		cfg.EnableHeartbeat = true
+		cfg.MessageQueueStrategy = QueueStrategyBlock
+		cfg.MessageQueueSize = 1 + s.Choose(sim.SWork, 2)
+		cfg.PongWaitTimeout = 10 * time.Second
+		cfg.HeartbeatTimeout = 11 * time.Second
+		if cfg.MaxConnectionsPerHub == 1 {
+			cfg.MaxConnectionsPerHub = 2
+		}
+		s.Probe("silent-peer-run")
+	}
 	hub := NewHubWithConfig(cfg)
 	w := &c16world{s: s, cfg: cfg, srv: &Server{hub: hub, upgrader: newUpgrader(cfg)}, byID: map[string]*c16client{}, memb: map[string][]c16memb{}, bcasts: map[string]*c16bcast{}, gone: map[string]uint64{}}
 	defer func() { s.Note("sample", w.sample) }()
@@ -363,12 +381,18 @@ func c16Run(s *sim.Sim, p *sim.Params) {
 			case r < 23:
 				o.kind = "ev-send"
 			default:
-				if s.Choose(sim.SWork, 2) == 0 {
+				switch s.Choose(sim.SWork, 3) {
+				case 0:
 					o.kind = "deaf"
 					o.d = []time.Duration{time.Second, 4 * time.Second, 8 * time.Second}[s.Choose(sim.SWork, 3)]
-				} else {
+				case 1:
+					o.kind = "deaf-chatter" // stops reading (answers no ping) but keeps asking for replies, on the heartbeat's beat
+				default:
 					o.kind = "garbage"
 				}
+			}
+			if silentPeer && ci == 0 && i == 0 {
+				o.kind = "deaf-chatter"
 			}
 			ops[i] = o
 		}
@@ -436,6 +460,18 @@ func c16Run(s *sim.Sim, p *sim.Params) {
 				case "deaf":
 					c.deafUntil = s.Now() + o.d
 					s.Fault("client-stops-reading")
+				case "deaf-chatter":
+					c.deafUntil = s.Now() + 9*time.Second
+					s.Fault("client-stops-reading")
+					for beat := 0; beat < 5 && err == nil; beat++ {
+						// wake on the next whole second since the connection was made: the
+						// heartbeat ticker of this connection fires at the same instants
+						since := s.Now() - c.connectedAt
+						s.Sleep(time.Second - since%time.Second)
+						for k := 0; k < 3 && err == nil; k++ {
+							err = c.send(map[string]any{"type": "ping"})
+						}
+					}
 				case "garbage":
 					c.ws.SetWriteDeadline(time.Now().Add(2 * time.Second))
 					err = c.ws.WriteMessage(gws.TextMessage, []byte("{not json"))
